@@ -14,8 +14,14 @@
 (*   enc     the body encoding (does not influence the model: all          *)
 (*           encodings of an endpoint must behave alike)                   *)
 (*   dataset "badescape": invalid percent-escape in the dataset path       *)
-(*   env     "401"/"500": Honeycomb's /1/auth refuses the environment      *)
-(*           lookup for the request's API key                              *)
+(*   key     "es": an Environments & Services key, whose environment is    *)
+(*           looked up through Honeycomb's /1/auth; "classic": no lookup   *)
+(*   ttl     "hour": a successful lookup stays in the environment cache    *)
+(*           for the rest of the request; "tiny": EnvironmentCacheTTL is   *)
+(*           so small that the entry has expired by the next lookup        *)
+(*   envAt, env   the fault schedule of the auth API: from its envAt-th    *)
+(*           call for this request on (0 = never) it answers env =         *)
+(*           "401"/"500" (it went down / the key was revoked meanwhile)    *)
 (*   body    "gzip"/"gziptrunc"/"zstd": the compressed body is corrupt     *)
 (*   parse   "garbage"/"truncated": the (decompressed) body is malformed;  *)
 (*           "ctype": it is announced with a Content-Type that OTLP/HTTP   *)
@@ -27,6 +33,9 @@
 (*             "full"  like "span" but the collector queue is full         *)
 (*                     (AddSpan returns collect.ErrWouldBlock)             *)
 (*             "empty" an event without any field (invalid)                *)
+(*   split   OTLP: how the events are spread over the resources of the     *)
+(*           request (husky makes one batch per resource); <<2, 1>> = two  *)
+(*           events in the first resource, one in the second               *)
 (*                                                                         *)
 (* Every handler is a step sequence (Program); one action = one step of    *)
 (* the handler, named by `pc`.  StepFn is the step function of all         *)
@@ -44,6 +53,17 @@
 (*   perEvent the per-event statuses of the batch list                     *)
 (*   effects  events handed to the collector / upstream / peer             *)
 (*   refused  events whose queue admission was tried and refused           *)
+(*   grp      OTLP: the resource batch being processed                     *)
+(*   calls, cached   calls made to the auth API for this request; whether  *)
+(*            the environment cache holds a live entry for the key         *)
+(*                                                                         *)
+(* The property does not say how often a handler may resolve the           *)
+(* environment, only that an error answer means nothing was handed on and  *)
+(* a success answer that everything was tried.  So the ideal handler may   *)
+(* resolve it up to three times (choice c.extra) BEFORE it touches the     *)
+(* data: if the schedule lets a later call fail, both "success, everything *)
+(* processed" and "error, nothing processed" are allowed; an error after   *)
+(* part of the request was handed on is not.                               *)
 (*                                                                         *)
 (* With Faithful = TRUE the graph also contains, as named deviations, what *)
 (* the code does when the environment lookup fails:                        *)
@@ -62,13 +82,15 @@ CONSTANTS MaxEvents,    \* events per request (batch, OTLP)
           Faithful,     \* TRUE: the graph also contains the known deviation successors
           Macro,        \* TRUE: one action per request (what a client observes)
           EnvFaults,    \* subset of {"401", "500"}
+          EnvAts,       \* subset of {1, 2, 3}: the auth API call from which on it fails
           BodyFaults,   \* subset of {"gzip", "gziptrunc", "zstd"}
           ParseFaults   \* subset of {"garbage", "truncated", "ctype"}
 
-VARIABLES req, pc, idx, status, writes, perEvent, effects, refused, devs, act
+VARIABLES req, pc, idx, grp, calls, cached, status, writes, perEvent, effects, refused, devs, act
 
-hvars == <<pc, idx, status, writes, perEvent, effects, refused, devs>>
-vars  == <<req, pc, idx, status, writes, perEvent, effects, refused, devs, act>>
+vars  == <<req, pc, idx, grp, calls, cached, status, writes, perEvent, effects, refused, devs, act>>
+
+ASSUME MaxEvents \in 0 .. 3
 
 ---------------------------------------------------------------------------
 (* Requests                                                                *)
@@ -89,8 +111,19 @@ Kinds(ep) == IF ep \in {"otlp-http-traces", "otlp-grpc-traces"} THEN {"span", "p
              ELSE IF ep \in {"otlp-http-logs", "otlp-grpc-logs"} THEN {"span", "peer", "full", "plain"}
              ELSE {"span", "peer", "full", "plain", "empty"}
 
+Min2(a, b) == IF a < b THEN a ELSE b
 Shapes(ep) == IF ep = "event" THEN {<<k>> : k \in Kinds(ep)}
+              ELSE IF ep = "peer-batch" THEN UNION {[1 .. n -> Kinds(ep)] : n \in 0 .. Min2(MaxEvents, 2)}
               ELSE UNION {[1 .. n -> Kinds(ep)] : n \in 0 .. MaxEvents}
+
+\* the ways n events are spread over the resources of an OTLP request (n = 0:
+\* one resource without events)
+Splits(n) == CASE n = 0 -> {<<0>>}
+               [] n = 1 -> {<<1>>}
+               [] n = 2 -> {<<2>>, <<1, 1>>}
+               [] n = 3 -> {<<3>>, <<1, 2>>, <<1, 1, 1>>}
+ShapeSplits(ep) == UNION {{[shape |-> sh, split |-> sp] : sp \in (IF IsOTLP(ep) THEN Splits(Len(sh)) ELSE {<<Len(sh)>>})}
+                          : sh \in Shapes(ep)}
 
 \* the dataset is part of the path only on the Honeycomb endpoints; gRPC
 \* bodies are framed by the transport (no body fault from outside)
@@ -99,11 +132,30 @@ BodyFaultsOf(ep)  == IF IsGRPC(ep) THEN {"none"} ELSE {"none"} \cup BodyFaults
 \* /1/events and /1/batch read anything that is not msgpack as JSON, gRPC has one content type
 ParseFaultsOf(ep) == {"none"} \cup (IF ep \in {"otlp-http-traces", "otlp-http-logs"} THEN ParseFaults ELSE ParseFaults \ {"ctype"})
 
+\* key class, cache TTL and fault schedule of the auth API.  A later call can
+\* only be reached when nothing stays cached.
+Healthy    == [key |-> "es", ttl |-> "hour", env |-> "none", envAt |-> 0]
+EnvOptions == {Healthy,
+               [key |-> "classic", ttl |-> "hour", env |-> "none", envAt |-> 0],
+               [key |-> "es", ttl |-> "tiny", env |-> "none", envAt |-> 0]}
+              \cup {[key |-> "es", ttl |-> "hour", env |-> f, envAt |-> 1] : f \in EnvFaults}
+              \cup {[key |-> "es", ttl |-> "tiny", env |-> f, envAt |-> k] : f \in EnvFaults, k \in EnvAts \ {1}}
+
+\* a body that cannot be decompressed has no content that could be malformed
+BodyParse(ep) == {[body |-> "none", parse |-> q] : q \in ParseFaultsOf(ep)}
+                 \cup {[body |-> b, parse |-> "none"] : b \in BodyFaultsOf(ep) \ {"none"}}
+
+Mk(ep, enc, ds, o, bp, ss) ==
+  [ep |-> ep, enc |-> enc, dataset |-> ds, key |-> o.key, ttl |-> o.ttl, env |-> o.env, envAt |-> o.envAt,
+   body |-> bp.body, parse |-> bp.parse, shape |-> ss.shape, split |-> ss.split]
+
 \* a request with an undecodable path is turned away before anything else of it
 \* is looked at, so that fault is not combined with the others
-Requests == {r \in UNION {[ep : {ep}, enc : Encodings(ep), dataset : DatasetFaults(ep), env : {"none"} \cup EnvFaults,
-                           body : BodyFaultsOf(ep), parse : ParseFaultsOf(ep), shape : Shapes(ep)] : ep \in Endpoints} :
-               r.dataset # "none" => (r.env = "none" /\ r.body = "none" /\ r.parse = "none")}
+Requests ==
+  UNION {{Mk(ep, enc, "none", o, bp, ss) : enc \in Encodings(ep), o \in EnvOptions, bp \in BodyParse(ep), ss \in ShapeSplits(ep)}
+         \cup {Mk(ep, enc, ds, Healthy, [body |-> "none", parse |-> "none"], ss)
+                : enc \in Encodings(ep), ds \in DatasetFaults(ep) \ {"none"}, ss \in ShapeSplits(ep)}
+         : ep \in Endpoints}
 
 Dest(kind) == CASE kind = "span" -> "collector" [] kind = "peer" -> "peer" [] kind = "plain" -> "upstream"
 
@@ -117,13 +169,14 @@ Dest(kind) == CASE kind = "span" -> "collector" [] kind = "peer" -> "peer" [] ki
 \* lookupEnv     getEnvironmentName -> environmentCache -> GET /1/auth
 \* parse         unmarshal / proto.Unmarshal / translatedTraceServiceRequest.Unmarshal
 \* validate      requestToEvent "empty event data"
+\* batch         OTLP: the loop over the resource batches of the request (per-batch set-up)
 \* process       one iteration of the event loop: processEvent
 \* respond       the success answer
 Program(ep) ==
   CASE ep = "event"  -> <<"accept", "auth", "readBody", "decodeDataset", "lookupEnv", "parse", "validate", "process", "respond">>
     [] IsBatch(ep)   -> <<"accept", "auth", "readBody", "decodeDataset", "lookupEnv", "parse", "process", "respond">>
-    [] IsGRPC(ep)    -> <<"accept", "auth", "parse", "lookupEnv", "process", "respond">>
-    [] OTHER         -> <<"accept", "auth", "readBody", "parse", "lookupEnv", "process", "respond">>
+    [] IsGRPC(ep)    -> <<"accept", "auth", "parse", "lookupEnv", "batch", "process", "respond">>
+    [] OTHER         -> <<"accept", "auth", "readBody", "parse", "lookupEnv", "batch", "process", "respond">>
 
 After(ep, p) == LET P == Program(ep)
                     i == CHOOSE j \in 1 .. Len(P) : P[j] = p
@@ -152,7 +205,27 @@ Process(r, s, c) ==
          ELSE [n EXCEPT !.refused = @ \cup {i}]
       ELSE [n EXCEPT !.effects = @ \cup {[e |-> i, to |-> Dest(k)]}]
 
-\* c.dev: follow the known deviation where there is one; c.lenient: see Process
+\* getEnvironmentName, n times in a row: a classic key needs no lookup, a live
+\* cache entry answers, otherwise the auth API is called; its j-th call for
+\* this request fails from call envAt on.  Only a successful answer is cached,
+\* and with the tiny TTL it has expired by the next lookup.
+ApiFails(r, j) == r.envAt > 0 /\ j >= r.envAt
+MinOf(S) == CHOOSE x \in S : \A y \in S : x <= y
+LookupEnv(r, s, n) ==
+  IF r.key = "classic" \/ s.cached THEN [st |-> s, ok |-> TRUE]
+  ELSE IF r.ttl = "hour" THEN
+          IF ApiFails(r, s.calls + 1) THEN [st |-> [s EXCEPT !.calls = @ + 1], ok |-> FALSE]
+          ELSE [st |-> [s EXCEPT !.calls = @ + 1, !.cached = TRUE], ok |-> TRUE]
+  ELSE LET bad == {j \in 1 .. n : ApiFails(r, s.calls + j)} IN
+       IF bad = {} THEN [st |-> [s EXCEPT !.calls = @ + n], ok |-> TRUE]
+       ELSE [st |-> [s EXCEPT !.calls = @ + MinOf(bad)], ok |-> FALSE]
+
+\* the last event of resource batch g
+RECURSIVE EndOf(_, _)
+EndOf(r, g) == IF g = 0 THEN 0 ELSE EndOf(r, g - 1) + r.split[g]
+
+\* c.dev: follow the known deviation where there is one; c.lenient: see Process;
+\* c.extra: how many more times than once the environment is resolved up front
 StepFn(r, s, c) ==
   LET nxt == After(r.ep, s.pc) IN
   CASE s.pc = "accept"        -> IF r.dataset # "none" THEN Fail(s) ELSE Goto(s, nxt)  \* net/http answers 400 itself
@@ -160,41 +233,49 @@ StepFn(r, s, c) ==
     [] s.pc = "readBody"      -> IF r.body # "none" THEN Fail(s) ELSE Goto(s, nxt)
     [] s.pc = "decodeDataset" -> Goto(s, nxt)   \* cannot fail behind net/http and the mux
     [] s.pc = "lookupEnv"     ->
-         IF r.env = "none" THEN Goto(s, nxt)
+         LET l == LookupEnv(r, s, 1 + c.extra) IN
+         IF l.ok THEN Goto(l.st, nxt)
          ELSE IF c.dev /\ IsBatch(r.ep)
-              THEN [Answer(s, "err") EXCEPT !.pc = nxt, !.devs = @ \cup {DevName(r.ep)}]
+              THEN [Answer(l.st, "err") EXCEPT !.pc = nxt, !.devs = @ \cup {DevName(r.ep)}]
          ELSE IF c.dev /\ IsOTLP(r.ep)
-              THEN [s EXCEPT !.pc = "respond", !.devs = @ \cup {DevName(r.ep)}]
-         ELSE Fail(s)
+              THEN [l.st EXCEPT !.pc = "respond", !.devs = @ \cup {DevName(r.ep)}]
+         ELSE Fail(l.st)
     [] s.pc = "parse"         -> IF r.parse # "none" THEN Fail(s) ELSE Goto(s, nxt)
     [] s.pc = "validate"      -> IF r.shape[1] = "empty" THEN Fail(s) ELSE Goto(s, nxt)
-    [] s.pc = "process"       -> IF s.idx > Len(r.shape) THEN Goto(s, nxt) ELSE Process(r, s, c)
+    [] s.pc = "batch"         -> IF s.grp > Len(r.split) THEN Goto(s, "respond") ELSE Goto(s, "process")
+    [] s.pc = "process"       -> IF IsOTLP(r.ep)
+                                 THEN IF s.idx > EndOf(r, s.grp) THEN [s EXCEPT !.grp = @ + 1, !.pc = "batch"]
+                                      ELSE Process(r, s, c)
+                                 ELSE IF s.idx > Len(r.shape) THEN Goto(s, nxt) ELSE Process(r, s, c)
     [] s.pc = "respond"       -> [Answer(s, "ok") EXCEPT !.pc = "done"]
 
 RECURSIVE Run(_, _, _)
 Run(r, s, c) == IF s.pc = "done" THEN s ELSE Run(r, StepFn(r, s, c), c)
 
-Choices == [dev : IF Faithful THEN BOOLEAN ELSE {FALSE}, lenient : BOOLEAN]
-Plain   == [dev |-> FALSE, lenient |-> FALSE]
+Choices == [dev : IF Faithful THEN BOOLEAN ELSE {FALSE}, lenient : BOOLEAN, extra : 0 .. 2]
 
 ---------------------------------------------------------------------------
-Cur == [pc |-> pc, idx |-> idx, status |-> status, writes |-> writes, perEvent |-> perEvent,
+Cur == [pc |-> pc, idx |-> idx, grp |-> grp, calls |-> calls, cached |-> cached,
+        status |-> status, writes |-> writes, perEvent |-> perEvent,
         effects |-> effects, refused |-> refused, devs |-> devs]
 
 Become(n) == /\ pc' = n.pc /\ idx' = n.idx /\ status' = n.status /\ writes' = n.writes
+             /\ grp' = n.grp /\ calls' = n.calls /\ cached' = n.cached
              /\ perEvent' = n.perEvent /\ effects' = n.effects /\ refused' = n.refused /\ devs' = n.devs
              /\ UNCHANGED req
 
 Init == /\ req \in Requests
-        /\ pc = "accept" /\ idx = 1 /\ status = "none" /\ writes = 0
+        /\ pc = "accept" /\ idx = 1 /\ grp = 1 /\ calls = 0 /\ cached = FALSE /\ status = "none" /\ writes = 0
         /\ perEvent = <<>> /\ effects = {} /\ refused = {} /\ devs = {}
         /\ act = [name |-> "Init"]
 
 Label(name, n) == IF n.devs # devs THEN [name |-> name, dev |-> DevName(req.ep)] ELSE [name |-> name]
 
-\* a choice is offered only where it makes a difference
-Differs(f(_), c) == /\ (c.dev => f(c) # f([c EXCEPT !.dev = FALSE]))
-                    /\ (c.lenient => f(c) # f([c EXCEPT !.lenient = FALSE]))
+\* a choice is offered only where it makes a difference: further lookups only
+\* when exactly the last of them reaches the call from which the auth API fails
+Differs(f(_), c) == /\ (c.extra > 0 => req.key = "es" /\ req.ttl = "tiny" /\ req.envAt = c.extra + 1)
+                    /\ (c.lenient => req.ep = "event" /\ f(c) # f([c EXCEPT !.lenient = FALSE]))
+                    /\ (c.dev => req.envAt > 0 /\ f(c) # f([c EXCEPT !.dev = FALSE]))
 
 \* one step of the handler
 Step(c) == /\ ~Macro
@@ -226,9 +307,15 @@ Done   == pc = "done"
 Handed == {x.e : x \in effects}
 Tried  == Handed \cup refused
 
-TypeOK == /\ req \in Requests
-          /\ pc \in {"accept", "auth", "readBody", "decodeDataset", "lookupEnv", "parse", "validate", "process", "respond", "done"}
+TypeOK == /\ req.ep \in Endpoints /\ req.enc \in Encodings(req.ep) /\ req.shape \in Shapes(req.ep)
+          /\ req.split \in (IF IsOTLP(req.ep) THEN Splits(N) ELSE {<<N>>})
+          /\ req.key \in {"es", "classic"} /\ req.ttl \in {"hour", "tiny"} /\ req.envAt \in 0 .. 3
+          /\ (req.envAt = 0 <=> req.env = "none")
+          /\ pc \in {"accept", "auth", "readBody", "decodeDataset", "lookupEnv", "parse", "validate", "batch", "process", "respond", "done"}
           /\ idx \in 1 .. N + 1
+          /\ grp \in 1 .. Len(req.split) + 1
+          /\ calls \in 0 .. 3
+          /\ cached \in BOOLEAN
           /\ status \in {"none", "ok", "err"}
           /\ writes \in 0 .. 3
           /\ perEvent \in Seq({202, 400, 429}) /\ Len(perEvent) <= N
@@ -271,13 +358,16 @@ EffectsAreTheEvents ==
 
 \* a fault-free request is answered with success and every event was tried
 FaultFreeSucceeds ==
-  Ideal => (Done /\ req.dataset = "none" /\ req.env = "none" /\ req.body = "none" /\ req.parse = "none"
+  Ideal => (Done /\ req.dataset = "none" /\ req.envAt = 0 /\ req.body = "none" /\ req.parse = "none"
               /\ (req.ep = "event" => req.shape[1] \notin {"empty", "full"})
             => status = "ok")
-\* a request-level fault is answered with an error
+\* a request-level fault is answered with an error (a fault of a later auth
+\* call only if the handler made that call)
 FaultMeansError ==
-  Ideal => (Done /\ (req.dataset # "none" \/ req.env # "none" \/ req.body # "none" \/ req.parse # "none")
+  Ideal => (Done /\ (req.dataset # "none" \/ req.envAt = 1 \/ req.body # "none" \/ req.parse # "none")
             => status = "err")
+\* the events of a resource batch are processed while that batch is open, in order
+BatchesInOrder == (IsOTLP(req.ep) /\ pc = "process") => (grp <= Len(req.split) /\ idx > EndOf(req, grp - 1) /\ idx <= EndOf(req, grp) + 1)
 
 \* once something was answered nothing more happens to the data
 NothingAfterAnswer == [][(devs' = {} /\ status # "none") => (effects' = effects /\ refused' = refused)]_vars
@@ -297,13 +387,14 @@ CodeSuccessMeansTried   == Done /\ status = "ok" => \A i \in 1 .. N : (IsBatch(r
 \* what a client and the router's neighbours can observe.  The refusals are
 \* compared only under a success answer (the property says nothing about
 \* tries that preceded an error answer).
-Abs == [ep |-> req.ep, enc |-> req.enc, dataset |-> req.dataset, env |-> req.env, body |-> req.body,
-        parse |-> req.parse, shape |-> req.shape,
+Abs == [ep |-> req.ep, enc |-> req.enc, dataset |-> req.dataset, key |-> req.key, ttl |-> req.ttl,
+        env |-> req.env, envAt |-> req.envAt, body |-> req.body,
+        parse |-> req.parse, shape |-> req.shape, split |-> req.split,
         status |-> status, writes |-> writes, perEvent |-> perEvent,
         effectsSet |-> effects,
         refusedSet |-> IF status = "ok" THEN refused ELSE {}]
-St  == [req |-> req, pc |-> pc, idx |-> idx, status |-> status, writes |-> writes, perEvent |-> perEvent,
+St  == [req |-> req, pc |-> pc, idx |-> idx, grp |-> grp, calls |-> calls, cached |-> cached, status |-> status, writes |-> writes, perEvent |-> perEvent,
         effectsSet |-> effects, refusedAllSet |-> refused, devsSet |-> devs]
 Dump == PrintT(ToJson([fs |-> St, fa |-> act.name, act |-> act', ts |-> St', fabs |-> Abs, tabs |-> Abs']))
-View == <<req, pc, idx, status, writes, perEvent, effects, refused, devs>>
+View == <<req, pc, idx, grp, calls, cached, status, writes, perEvent, effects, refused, devs>>
 =============================================================================
